@@ -446,6 +446,20 @@ void COCSdoInit(CO_CSDO *csdo, struct CO_NODE_T *node)
     }
 }
 
+void COCSdoClear(CO_CSDO *csdo, struct CO_NODE_T *node)
+{
+    uint8_t n;
+
+    for (n = 0; n < (uint8_t)CO_CSDO_N; n++) {
+        if (csdo[n].State == CO_CSDO_STATE_BUSY) {
+            /* transfer is lost with the reset: inform the application */
+            COCSdoAbort(&csdo[n], CO_SDO_ERR_TOS_STATE);
+            COCSdoTransferFinalize(&csdo[n]);
+        }
+    }
+    COCSdoInit(csdo, node);
+}
+
 CO_CSDO *COCSdoCheck(CO_CSDO *csdo, CO_IF_FRM *frm)
 {
     CO_CSDO *result;
